@@ -5,6 +5,7 @@
 mod c02;
 mod c06;
 mod c07;
+mod c09;
 mod c10;
 mod c12;
 mod c13;
@@ -47,6 +48,7 @@ fn main() {
 
 fn run(args: &[String]) -> i32 {
     let code = match args[1].as_str() {
+        "c09-worker" => c09::worker(&args[2..]),
         "replay" => {
             let data = std::fs::read(&args[2]).expect("read replay file");
             let doc: serde_json::Value = serde_json::from_slice(&data).expect("json");
@@ -60,6 +62,7 @@ fn run(args: &[String]) -> i32 {
                 "C15" => c15::replay(r),
                 "C02" => c02::replay(r),
                 "C20" => c20::replay(r),
+                "C09" => c09::replay(r),
                 "C16" => c16::replay(r),
                 "C06" => c06::replay(r),
                 "C10" if r["kind"] == "c10-case" => c10::replay(r),
@@ -98,6 +101,7 @@ fn run(args: &[String]) -> i32 {
                 "C15" => c15::run_check(tier),
                 "C02" => c02::run(tier),
                 "C20" => c20::run(tier),
+                "C09" => c09::run(tier),
                 "C16" => c16::run(tier),
                 "C06" => c06::run(tier),
                 _ => {
